@@ -17,11 +17,16 @@ XADD_TIERS = {
 MIRI_DIR = os.path.join(V.ROOT, "sim", "xaddmiri")
 
 
+# (verif.py runs as __main__ and imports this module, which imports `verif` again as a second module
+# object: settings made in verif.main() are not visible through V, so the limit is kept here)
+CHUNK_TIMEOUT_S = [120]
+
+
 def run_chunk(binary, args, out):
     try:
-        r = subprocess.run([binary] + args + ["--out", out], stdout=subprocess.PIPE, stderr=subprocess.STDOUT, text=True, errors="replace", timeout=V.CHUNK_TIMEOUT_S)
+        r = subprocess.run([binary] + args + ["--out", out], stdout=subprocess.PIPE, stderr=subprocess.STDOUT, text=True, errors="replace", timeout=CHUNK_TIMEOUT_S[0])
     except subprocess.TimeoutExpired:
-        return "timeout after %ds" % V.CHUNK_TIMEOUT_S, ""
+        return "timeout after %ds" % CHUNK_TIMEOUT_S[0], ""
     return r.returncode, r.stdout
 
 
@@ -78,6 +83,8 @@ def miri_pass(seed, nseeds, timeout):
 
 def check(tier, seed, runs, workers, secs):
     t_total = time.time()
+    CHUNK_TIMEOUT_S[0] = 600 if tier == "thorough" else 120
+    V.CHUNK_TIMEOUT_S = CHUNK_TIMEOUT_S[0]
     cfg = dict(XADD_TIERS[tier])
     if runs:
         cfg["runs"] = runs
@@ -130,8 +137,8 @@ def check(tier, seed, runs, workers, secs):
         with open(out) as f:
             d = json.load(f)
         os.remove(out)
-        if one_cpu:
-            one_cpu_runs[0] += n
+        if one_cpu and d.get("one_cpu_effective"):
+            one_cpu_runs[0] += n  # (only where the binding took effect: exactly one CPU allowed afterwards)
         return d
 
     with ThreadPoolExecutor(max_workers=max(1, workers - 1)) as ex:
